@@ -250,7 +250,8 @@ class BuildAssembly(Assembly):
                         # Last added row was not the previous row in the
                         # scaffold
                         prev_row = scffld.rows[i - 1]
-                        if isinstance(prev_row, Gap):
+                        if last_added_i == i - 2 and isinstance(prev_row, Gap):
+                            # Only this gap separated the two in the input
                             new_scffld.add_row(prev_row)
                         else:
                             new_scffld.add_row(self.default_gap)
